@@ -292,7 +292,56 @@ def gen_input(rng, paired, fastq, containers=("",), p_interleaved=0.3, p_multime
     comments = rng.randint(1, 2) if (not fastq and rng.random() < 0.15) else 0
     if comments and layout == "two" and rng.random() >= p_comments_two_files:
         comments = 0
-    return {"layout": layout, "ext": ext, "containers": conts, "members": members, "comments": comments}
+    # other legal spellings of the same records: CRLF line ends, no newline after the last line,
+    # FASTA sequences wrapped over several lines
+    text = {}
+    r = rng.random()
+    if r < 0.04:
+        text["eol"] = "crlf"
+    elif r < 0.09:
+        text["final_newline"] = False
+    elif r < 0.10:
+        text["eol"] = "crlf"
+        text["final_newline"] = False
+    if not fastq and rng.random() < 0.25:
+        text["wrap"] = rng.choice([1, 7, 10, 60, 70])
+    out = {"layout": layout, "ext": ext, "containers": conts, "members": members, "comments": comments}
+    if text:
+        out["text"] = text
+    return out
+
+
+def style_plain(case, plain):
+    """The plain text of one input stream in the spelling the case asks for (applied after
+    record-level faults, which work on single-line LF text)."""
+    text = case["input"].get("text")
+    if not text or not plain:
+        return plain
+    w = text.get("wrap")
+    if w and case["fmt"] == "fasta":
+        out = []
+        for ln in plain.split(b"\n"):
+            if ln.startswith((b">", b"#")) or len(ln) <= w:
+                out.append(ln)
+            else:
+                out.extend(ln[i : i + w] for i in range(0, len(ln), w))
+        plain = b"\n".join(out)
+    if text.get("final_newline") is False and plain.endswith(b"\n") and not plain.endswith(b"\n\n"):
+        # (an empty last line without its newline would be ambiguous)
+        plain = plain[:-1]
+    if text.get("eol") == "crlf":
+        plain = plain.replace(b"\n", b"\r\n")
+    return plain
+
+
+def plain_streams(case):
+    """The LF, one-line-per-field text of each input stream."""
+    inp = case["input"]
+    if inp["layout"] == "two":
+        return list(records_plain(case))
+    if inp["layout"] == "interleaved":
+        return [interleave_plain(case)]
+    return [records_plain(case)[0]]
 
 
 def input_paths(case):
@@ -309,17 +358,13 @@ def materialize(case, rng_for_members=None):
 
     inp = case["input"]
     paths = input_paths(case)
-    if inp["layout"] == "two":
-        plains = list(records_plain(case))
-    elif inp["layout"] == "interleaved":
-        plains = [interleave_plain(case)]
-    else:
-        plains = [records_plain(case)[0]]
+    plains = plain_streams(case)
     files = {}
     ncomm = inp.get("comments", 0) if case["fmt"] == "fasta" else 0
     for i, (p, plain) in enumerate(zip(paths, plains)):
         if ncomm:
             plain = b"".join(b"# comment line %d\n" % k for k in range(ncomm)) + plain
+        plain = style_plain(case, plain)
         r = random.Random(case.get("member_seed", 0) * 31 + i)
         files[p] = fmt.compress(inp["containers"][i], plain, rng=r, members=inp["members"][i])
     for p, text in (case.get("aux_files") or {}).items():
@@ -796,9 +841,15 @@ def gen_case(rng, profile=None):
 def record_sizes(case):
     """Byte size of each plain record (per input stream) -- for buffer-size decisions."""
     fastq = case["fmt"] == "fastq"
+    text = case["input"].get("text") or {}
+    eol = 2 if text.get("eol") == "crlf" else 1
+    w = text.get("wrap") if not fastq else None
 
     def size(name, s):
-        return (len(name) + 2 + len(s) + 1 + 2 + len(s) + 1) if fastq else (len(name) + 2 + len(s) + 1)
+        if fastq:
+            return len(name) + 1 + len(s) + 1 + len(s) + 4 * eol
+        lines = max(1, -(-len(s) // w)) if w else 1
+        return len(name) + 1 + len(s) + (1 + lines) * eol
 
     s1 = [size(rec_name(r, 1), r[3]) for r in case["records"]]
     s2 = [size(rec_name(r, 2), r[5]) for r in case["records"]] if case["paired"] else []
